@@ -108,6 +108,27 @@ def make_cases(ctx, rnd):
         if i % 6 == 0:
             c["slowio"] = rnd.choice([50, 300])
         cases.append(c)
+    # a Reader that served an earlier stream up to exactly its last byte (the end of the stream was never asked for) and
+    # was Reset: its pipeline has finished on its own, every buffer went back to the pool exactly once
+    for i in range(16 if q else 200):
+        conc = [2, 4, 16][i % 3]
+        nb = rnd.choice([1, 2, 3, 5])
+        total = nb * B - rnd.choice([0, 0, 7])
+        cases.append({"id": len(cases) + 1, "kind": "reader", "input": {"family": "text", "len": total, "seed": 40 + i, "p1": B},
+                      "opts": {"code": 4, "bcs": i % 2 == 0, "ccs": True, "level": 0, "conc": 1, "legacy": False, "handler": False},
+                      "cfg": {"conc": conc, "mode": ["read", "writeto"][i % 2], "bufs": [rnd.choice([4096, B, 1000])], "preBytes": total,
+                              "preBuf": rnd.choice([4096, B, 3 * B, 1000])},
+                      "seed": ctx.seed * 1000 + 1200 + i, "perturb": rnd.choice([0, 10, 40]), "poison": True})
+    # a concurrent Writer whose sink failed, then Close, then Close again / Reset and a new frame: every call returns
+    for i in range(16 if q else 200):
+        conc = [2, 4, 16][i % 3]
+        nb = rnd.choice([2, 3, 5])
+        total = nb * B + 5
+        tail = [{"op": "close"}, {"op": "close"}] if i % 2 else [{"op": "close"}, {"op": "reset"}, {"op": "write", "n": 0}, {"op": "close"}]
+        cases.append({"id": len(cases) + 1, "kind": "writer", "lives": True, "input": {"family": "text", "len": total, "seed": 60 + i},
+                      "opts": {"code": 4, "bcs": False, "ccs": True, "level": 0, "conc": conc, "legacy": False, "handler": True},
+                      "calls": [{"op": "write", "n": total}] + tail, "failAt": rnd.randrange(2, 2 * nb + 2),
+                      "seed": ctx.seed * 1000 + 1400 + i, "perturb": rnd.choice([0, 40]), "poison": True})
     # a block that decodes to nothing (token 0x00) in the middle of the stream, valid blocks after it, then a block that
     # cannot be decoded, and a slow consumer: the decoding error is latched before the consumer sees the empty block
     # (TLC's counterexample to NoGoroutineLeft before fix 062dfed, D25)
